@@ -206,6 +206,49 @@ def part_history(args):
     return n, res, {}
 
 
+def part_long(args):
+    """one datagram that holds as many requests as fit (16-byte messages up to the UDP payload limit): every one
+    gets its own reply, in order"""
+    own_sid, own_major = args
+    loop = VLoop().install()
+    res = []
+    n = 0
+    try:
+        for count in (255, 1000, 2000, 4094):
+            s = make(loop, own_sid, own_major)
+            reqs = [(own_sid, 1 + (i % 3), i & 0xFFFF, (i * 7) & 0xFFFF, own_major, 0x00, 0, b"") for i in range(count)]
+            exc = None
+            try:
+                s.datagram_received(b"".join(refcodec.enc_someip(*f) for f in reqs), ADDR, False)
+            except Exception as e:  # noqa: BLE001
+                exc = type(e).__name__
+            loop.settle()
+            n += 1
+            case = dict(own=(own_sid, own_major), long=count)
+            if exc:
+                res.append(("no-exception", f"long-datagram-{exc}", f"{count} requests in one datagram: {exc} after "
+                            f"{len(s.transport.sent)} replies", case))
+                continue
+            want = []
+            for f in reqs:
+                exp, _ = expected(own_sid, own_major, f, False)
+                if exp is not None:
+                    want.append((f[0], f[1], f[2], f[3], f[4]) + exp)
+            got = []
+            for _, _, data, addr in s.transport.sent:
+                msgs, err, tail = refcodec.dec_someip_all(data)
+                got += [(m["service"], m["method"], m["client"], m["session"], m["iface"], m["mtype"], m["code"], m["payload"])
+                        for m in msgs]
+            if got != want or any(x[3] != ADDR for x in s.transport.sent):
+                res.append(("one-reply", "long-datagram", f"{count} requests in one datagram: {len(got)} replies, expected "
+                            f"{len(want)} (in order, to the sender)", case))
+            if [c[0] for c in s.calls] != [f[1] for f in reqs]:
+                res.append(("handler", "long-datagram", f"{count} requests: handlers ran {len(s.calls)} times", case))
+    finally:
+        loop.dispose()
+    return n, res, {}
+
+
 def check(ctx):
     own_sid = 0x1000 + ctx.seed % 0xE000
     own_major = 1 + ctx.seed % 200
@@ -213,6 +256,7 @@ def check(ctx):
     # split further by doing each service in one worker; the product per part is ~87k cases
     out = core.pmap(part, parts, 1)
     out += core.pmap(part_history, [(own_sid, own_major)], 1)
+    out += core.pmap(part_long, [(own_sid, own_major)], 1)
     n = sum(o[0] for o in out)
     viols = []
     classes = {}
@@ -244,6 +288,12 @@ def check(ctx):
 def replay(ctx, body):
     case = body["case"]
     own = case["own"]
+    if "long" in case:
+        _, res, _ = part_long((own[0], own[1]))
+        res = [r for r in res if r[3]["long"] == case["long"]]
+        for r in res:
+            print("FAILS:", r[:3])
+        return 1 if res else 0
     if "history" in case:
         loop = VLoop().install()
         try:
